@@ -13,6 +13,9 @@ import (
 	"bytes"
 	"context"
 	"fmt"
+	"go/ast"
+	"go/parser"
+	"go/token"
 	"net"
 	"reflect"
 	"strconv"
@@ -148,6 +151,50 @@ func c15Session(t *testing.T, out *vh.Out, tgt *testutils.Target, sw *c15Switch,
 	}
 }
 
+// c15SubmissionFacts reads submission.go of the CURRENT tree: which header fields does
+// submissionPrepare write?  (The model's frame fact `submissionWrites`.)
+func c15SubmissionFacts(out *vh.Out) {
+	fset := token.NewFileSet()
+	f, err := parser.ParseFile(fset, "submission.go", nil, 0)
+	if err != nil {
+		out.Violation("C15/facts-unreadable", "C15 fact submission-writes", err.Error())
+		return
+	}
+	var writes []string
+	for _, d := range f.Decls {
+		fd, ok := d.(*ast.FuncDecl)
+		if !ok || fd.Name.Name != "submissionPrepare" {
+			continue
+		}
+		ast.Inspect(fd.Body, func(n ast.Node) bool {
+			call, ok := n.(*ast.CallExpr)
+			if !ok {
+				return true
+			}
+			sel, ok := call.Fun.(*ast.SelectorExpr)
+			if !ok {
+				return true
+			}
+			id, ok := sel.X.(*ast.Ident)
+			if !ok || id.Name != "header" {
+				return true
+			}
+			switch sel.Sel.Name {
+			case "Set", "Add", "Del", "AddRaw":
+				key := "?"
+				if len(call.Args) > 0 {
+					if bl, ok := call.Args[0].(*ast.BasicLit); ok && bl.Kind == token.STRING {
+						key, _ = strconv.Unquote(bl.Value)
+					}
+				}
+				writes = append(writes, key)
+			}
+			return true
+		})
+	}
+	out.Corr("C15 fact submission-writes", vh.HexRunes(strings.Join(writes, " ")))
+}
+
 func TestVerifC15Session(t *testing.T) {
 	out := vh.Open("c15session")
 	defer out.Close()
@@ -169,6 +216,7 @@ func TestVerifC15Session(t *testing.T) {
 			return
 		}
 	} else {
+		c15SubmissionFacts(out)
 		for _, cs := range vc15.Fixed() {
 			cases = append(cases, cs)
 		}
